@@ -1,73 +1,118 @@
 //go:build verif
 
-// Package gate is a cooperative scheduler for real goroutines: exactly one process runs at a time, it parks at
-// the next hook point (verifhook.At) or finishes; the scheduler releases processes in the order a TLC behaviour
-// prescribes. The specification models lock ownership, so a released process never blocks on a mutex held by a
-// parked one.
+// Package gate is a cooperative scheduler for real goroutines: a process runs until it parks at the next hook
+// point (verifhook.At) or finishes; the scheduler releases processes in the order a TLC behaviour prescribes.
+// The specification models lock ownership, so a released process normally never blocks on a mutex held by a
+// parked one. Where the specification says a process is BLOCKED (the lock is owned by a parked process), Probe
+// releases it anyway and checks that it really does not get anywhere; it is collected later.
 package gate
 
 import (
+	"bytes"
+	"runtime"
+	"strconv"
 	"sync"
 	"time"
 )
 
+func goid() int64 {
+	var buf [64]byte
+	n := runtime.Stack(buf[:], false)
+	f := bytes.Fields(buf[:n])
+	if len(f) < 2 {
+		return -1
+	}
+	id, _ := strconv.ParseInt(string(f[1]), 10, 64)
+	return id
+}
+
 type Proc struct {
-	Name   string
-	resume chan struct{}
-	parked chan string
-	Done   bool
-	At     string // gate the process is parked at ("" before the first step)
+	Name     string
+	resume   chan struct{}
+	parked   chan string
+	Done     bool
+	At       string // gate the process is parked at ("" before the first step)
+	InFlight bool   // released by Probe, has not parked yet
 }
 
 type Sched struct {
 	mu      sync.Mutex
-	running *Proc
+	procs   map[int64]*Proc
+	free    bool
 	Timeout time.Duration
 }
 
-func New() *Sched { return &Sched{Timeout: 3 * time.Second} }
+func New() *Sched { return &Sched{Timeout: 3 * time.Second, procs: map[int64]*Proc{}} }
 
 // Spawn creates a process; its body starts running at the first Step.
 func (s *Sched) Spawn(name string, body func()) *Proc {
 	p := &Proc{Name: name, resume: make(chan struct{}), parked: make(chan string, 1)}
 	go func() {
+		id := goid()
+		s.mu.Lock()
+		s.procs[id] = p
+		s.mu.Unlock()
 		<-p.resume
 		body()
+		s.mu.Lock()
+		delete(s.procs, id)
+		s.mu.Unlock()
 		p.parked <- "done"
 	}()
 	return p
 }
 
+func (s *Sched) arrived(p *Proc, g string) string {
+	if g == "done" {
+		p.Done = true
+	}
+	p.At = g
+	p.InFlight = false
+	return g
+}
+
 // Step runs p until it parks at its next gate ("done" when its body returned, "UNSTEERABLE" on timeout).
+// A process that is in flight (see Probe) is only waited for.
 func (s *Sched) Step(p *Proc) string {
 	if p.Done {
 		return "done"
 	}
-	s.mu.Lock()
-	s.running = p
-	s.mu.Unlock()
-	p.resume <- struct{}{}
+	if !p.InFlight {
+		p.resume <- struct{}{}
+	}
 	select {
 	case g := <-p.parked:
-		s.mu.Lock()
-		s.running = nil
-		s.mu.Unlock()
-		if g == "done" {
-			p.Done = true
-		}
-		p.At = g
-		return g
+		return s.arrived(p, g)
 	case <-time.After(s.Timeout):
+		p.InFlight = true
 		return "UNSTEERABLE"
 	}
 }
 
-// Hook is called (through verifhook) by the code under test; it parks the running process.
+// Probe releases p although the specification says it is blocked and reports where it got within d
+// ("BLOCKED" if nowhere: it stays in flight and is collected by a later Step).
+func (s *Sched) Probe(p *Proc, d time.Duration) string {
+	if p.Done || p.InFlight {
+		return "BLOCKED"
+	}
+	p.resume <- struct{}{}
+	select {
+	case g := <-p.parked:
+		return s.arrived(p, g)
+	case <-time.After(d):
+		p.InFlight = true
+		return "BLOCKED"
+	}
+}
+
+// Hook is called (through verifhook) by the code under test; it parks the calling process.
 func (s *Sched) Hook(point string) {
+	id := goid()
 	s.mu.Lock()
-	p := s.running
+	p := s.procs[id]
+	free := s.free
 	s.mu.Unlock()
-	if p == nil {
+	if p == nil || free {
 		return
 	}
 	p.parked <- point
@@ -77,7 +122,7 @@ func (s *Sched) Hook(point string) {
 // Abandon lets every goroutine run freely from now on (end of a case).
 func (s *Sched) Abandon(ps ...*Proc) {
 	s.mu.Lock()
-	s.running = nil
+	s.free = true
 	s.mu.Unlock()
 	for _, p := range ps {
 		if p != nil && !p.Done {
